@@ -50,8 +50,10 @@ type RegistrationManager struct {
 	connectingStats ConnectingTpStats
 
 	// ingestChan is included here so that the capacity and use is available to
-	// stats
-	ingestChan <-chan interface{}
+	// stats. It is set by HandleRegUpdates while the stats reporter may already be
+	// running: access it under ingestChanMu.
+	ingestChan   <-chan interface{}
+	ingestChanMu sync.RWMutex
 
 	// reloadMu guards PhantomSelector and GeoIP, which OnReload replaces while ingest workers and
 	// connection handlers are running. Read them through phantomSelector() / GetGeoIP().
